@@ -1,11 +1,14 @@
 import Femio.Driver.Proto
 import Femio.Driver.C01
 import Femio.Model.FistrCnt
+import Femio.Model.FistrCntCanon
 /-! driver commands for C03 (FrontISTR `.cnt`)
 
 ```
 c03.write <cntin>                      -> ok 1 <list line> | ok 0
 c03.read <list group> <list line>      -> ok 1 <cntread>   | ok 0
+c03.expected <cntin>                   -> ok <wf> <cntread>   (wf = decide (Femio.C03.WFCnt c), cntread = expectedCnt c:
+                                          hypothesis and right-hand side of theorem C03_file_roundtrip)
 cntin   := str bool opt(table) opt(table) opt(table) opt(slist) opt(slist) opt(slist)
 table   := list(id list(opt sci))      slist := list(id sci)
 cntread := str opt(rtable) opt(rtable) opt(rtable) opt(rslist) opt(rslist) opt(rslist)
@@ -37,6 +40,9 @@ def handle : List String → Option String
     match writeCnt c with
     | some ls => some ("ok 1 " ++ showLines ls)
     | none => some "ok 0"
+  | "c03.expected" :: rest => do
+    let c ← run cntInP rest
+    some ("ok " ++ showBool (decide (WFCnt c)) ++ " " ++ showCntRead (expectedCnt c))
   | "c03.read" :: rest => do
     let (ng, ls) ← run (do let g ← listOf groupP; let l ← listOf str; pure (g, l)) rest
     match readCnt ng ls with
